@@ -51,35 +51,34 @@ theorem fact_update_service_shape :
 
 /-- every writer of the service record (timestamp increment / set, wipe) reads it under the row lock, on both SQL dialects -/
 theorem fact_service_writers_locked :
-    Facts.C16.lockedServiceWriters = ["clause.Locking", "UPDLOCK", "incrementTimestamp", "setTimestamp", "wipeIfSeedChanged"] := by
-  decide
+    Facts.C16.lockedServiceWriters = ["clause.Locking", "UPDLOCK", "incrementTimestamp", "setTimestamp", "wipeIfSeedChanged"] := rfl
 
 /-- loops that must visit every element do: the credential-expiry loop and the audience loop only leave by returning their
     verdict, `clientUpdater.update` never leaves early (a failing service does not stop the others), `validate` /
     `removeRevoked` only `continue` -/
 theorem fact_loops_visit_everything :
     Facts.C16.loopJumps = ["validateRegistration:return errPresentationValidityExceedsCredentials", "validateAudience:return nil",
-      "validate:continue", "validate:continue", "validate:continue", "removeRevoked:continue", "removeRevoked:continue"] := by decide
+      "validate:continue", "validate:continue", "validate:continue", "removeRevoked:continue", "removeRevoked:continue"] := rfl
 
 /-- comparisons are exact: audience by `==`, DID method by `slices.Contains`, credential expiry by `After`, PEX by count -/
 theorem fact_comparisons_exact :
     Facts.C16.comparisons = ["aud: audienceID == service.ID",
       "method: len(definition.DIDMethods) > 0 && !slices.Contains(definition.DIDMethods, credentialSubjectID.Method)",
       "registration: cred.ExpirationDate != nil && expiration.After(*cred.ExpirationDate)", "registration: err != nil",
-      "registration: len(creds) != len(presentation.VerifiableCredential)"] := by decide
+      "registration: len(creds) != len(presentation.VerifiableCredential)"] := rfl
 
 /-- an entry is identified by (service, signer, presentation id) — everywhere `exists` is asked (`Store.hasKey`) -/
 theorem fact_exists_key :
     Facts.C16.existsKey = ["ServiceID=serviceID", "CredentialSubjectID=credentialSubjectID", "PresentationID=presentationID"] ∧
     Facts.C16.existsCalls = ["Register(definition.ID, credentialSubjectID.String(), presentation.ID.String())",
       "validateRetraction(serviceID, signerDID.String(), retractJTI)",
-      "updateService(service.ID, credentialSubjectID.String(), presentation.ID.String())"] := by decide
+      "updateService(service.ID, credentialSubjectID.String(), presentation.ID.String())"] := ⟨rfl, rfl⟩
 
 /-- background jobs: `validate` flags exactly the records that verified (`clientValidate`); `removeRevoked` deletes only on
     `ErrRevoked` (no revocation in the model: it is the identity there) -/
 theorem fact_background_jobs :
     Facts.C16.backgroundJobs = ["presentations[j] = presentations[i]", "updateValidated(presentations[:j])",
-      "delete if errors.Is(err, types.ErrRevoked)"] := by decide
+      "delete if errors.Is(err, types.ErrRevoked)"] := rfl
 
 /-- wiring: `Start` hands the client updater and the registration manager the module's own `verifyRegistration`, store and
     definitions; `Search` never allows unvalidated rows; the API wrapper and the HTTP client pass service id, timestamp,
@@ -92,7 +91,7 @@ theorem fact_wiring :
       "api: Server.Get(contextWithForwardedHost(ctx), request.ServiceID, timestamp)",
       "api: response{Seed: seed, Entries: presentations, Timestamp: newTimestamp}",
       "api: Server.Register(contextWithForwardedHost(ctx), request.ServiceID, *request.Body)",
-      "http: query timestamp", "http: return result.Entries, result.Seed, result.Timestamp, nil"] := by decide
+      "http: query timestamp", "http: return result.Entries, result.Seed, result.Timestamp, nil"] := rfl
 
 /-! ### the list holds only what passed the registration predicate -/
 
